@@ -1,8 +1,8 @@
 """C09 - line-count reports a block iff its size breaks the bound (reference model, full grid)."""
 import itertools
 
-from .. import models, vbatch
-from .common import h, rng
+from .. import models, run, vbatch
+from .common import Case, HELD, VIOLATED, h, rng
 
 ID = "C09"
 LEVEL = "exploration"
@@ -30,6 +30,7 @@ def plan(tier, seed):
     for i in range(12 if tier == "quick" else 300):
         jobs.append({"k": "rand", "i": i, "seed": seed})
     jobs.append({"k": "nested", "seed": seed})
+    jobs.append({"k": "empty-content", "seed": seed})
     return jobs
 
 
@@ -95,6 +96,41 @@ def run_job(job, ctx):
         for c in vbatch.run_batch(ctx, blocks, r.choice(["hash", "c"]), "line-count", model, eol=eol, sig_prefix="C09",
                                   nontrivial_fn=_nontrivial, sets_fn=_sets):
             acc.add(c)
+    elif job["k"] == "empty-content":
+        out = []
+        for host, tmpl in (("e.py", '# <block name="%s" line-count="%s"></block>'), ("e.js", '/* <block name="%s" line-count="%s"> *//* </block> */'),
+                           ("e.rs", '// <block name="%s" line-count="%s"> </block>'), ("e.md", '<!-- <block name="%s" line-count="%s"></block> -->\n')):
+            lines, exp = [], {}
+            k = 0
+            for op in OPS:
+                for n in (0, 1, 2):
+                    name = "z%d" % k
+                    k += 1
+                    expr = "%s%d" % (op, n)
+                    lines.append(tmpl % (name, expr))
+                    exp[name] = models.line_count("", expr)
+            root = run.make_repo({host: "\n".join(lines) + "\n"})
+            try:
+                res = run.run(ctx.bin("rel"), [], root, stdin=None, env={"BLOCKWATCH_TERMINAL_MODE": "1"})
+            finally:
+                run.rm(root)
+            got = {}
+            for f, lst in (res.diagnostics() or {}).items():
+                for d in lst:
+                    m = vbatch.MSG_RE.match(d.get("message", ""))
+                    if m:
+                        got[m.group(2)] = d.get("data")
+            for name, want in exp.items():
+                key = h([host, name])
+                sets = {"layout": ["empty-content/" + host.split(".")[1]], "verdict": ["violation" if want else "ok"]}
+                if got.get(name) != want:
+                    out.append(Case(VIOLATED, key=key, nontrivial=True, sig="C09/empty-content/%s" % ("missed" if want else "spurious"), sets=sets,
+                                    summary="block %s with empty content in %s: data %s, expected %s" % (name, host, got.get(name), want),
+                                    witness={"file": "\n".join(lines), "observed": res.brief(2000)}, evals=0))
+                else:
+                    out.append(Case(HELD, key=key, nontrivial=True, sets=sets, evals=0, counters={"blocks": 1}))
+            out[0].evals = 1
+        return out
     else:
         # nested blocks: the inner blocks' tag lines are ordinary lines of the outer block
         blocks = []
